@@ -269,6 +269,7 @@ func ruleWS1(c *Ctx) {
 	}
 	info := f.Info()
 	var commaPos, multiPos, colonPos token.Pos
+	var multiIf *ast.IfStmt
 	InspectNoLit(f.Body(), func(nd ast.Node) bool {
 		ifs, ok := nd.(*ast.IfStmt)
 		if !ok {
@@ -284,6 +285,7 @@ func ruleWS1(c *Ctx) {
 			commaPos = ifs.Pos()
 		case ft.Single["Multiline"]:
 			multiPos = ifs.Pos()
+			multiIf = ifs
 		case ft.Single["SpaceAfterColon"]:
 			colonPos = ifs.Pos()
 		}
@@ -294,6 +296,19 @@ func ruleWS1(c *Ctx) {
 		return
 	}
 	c.Oblige("comma-space-before-indent", commaPos, commaPos < multiPos, "the SpaceAfterComma space is appended after the Multiline indentation; WriteValue (reformat*) emits it right after the comma, so the two paths would format the same tokens differently")
+	// ... and the two are independent: the indentation is not an alternative (else branch) of the comma space
+	alt := false
+	var cur ast.Node = multiIf
+	for cur != nil && cur != ast.Node(f.Body()) {
+		par := p.Parent(f.File, cur)
+		if pi, ok := par.(*ast.IfStmt); ok && pi.Else == cur {
+			if flagsRead(info, pi.Cond)&ft.Single["SpaceAfterComma"] != 0 {
+				alt = true
+			}
+		}
+		cur = par
+	}
+	c.Oblige("indent-independent-of-comma-space", multiPos, !alt, "the Multiline newline/indent is only emitted when the SpaceAfterComma space is not (else branch): with both options set the token path keeps members on one line while WriteValue (reformat*) applies both")
 	// the value path for comparison: in reformatArray/reformatObject the comma append is followed by the SpaceAfterComma test
 	for _, nm := range []string{"reformatObject", "reformatArray"} {
 		g := p.Func("jsontext.(*encoderState)." + nm)
